@@ -101,6 +101,7 @@ fn classify(msg: &str) -> (String, Vec<u128>) {
 }
 
 fn call(reg: &PortableRegistry, settings: &TypeGeneratorSettings, id: u32, seed: u64) -> Out {
+    crate::util::inflight(&serde_json::json!({"ids": [id], "seeds": [seed]}));
     match std::panic::catch_unwind(std::panic::AssertUnwindSafe(|| example_from_seed(id, reg, settings, seed, None, None))) {
         Ok(Ok(ts)) => {
             let syn_ok = std::panic::catch_unwind(std::panic::AssertUnwindSafe(|| syn::parse2::<syn::Expr>(ts.clone()).is_ok()))
@@ -648,6 +649,7 @@ impl Gen {
             self.skipped_unsafe_registries += 1;
             return;
         }
+        crate::util::inflight_ctx(&serde_json::json!({"registry": rj, "settings": spec}));
         let (settings, outs) = sets::build(spec);
         let rcoq = regprint::registry(&reg);
         let gen: Obs<Vec<String>> = observe(|| {
